@@ -205,7 +205,8 @@ func (m *MonC16) AfterBlock(w *World, b *BlockCtx) {
 		}
 		seg := strings.Split(k, "/")
 		if fh != h {
-			if hasEvidence && new(big.Int).Mul(now, big.NewInt(100)).Cmp(new(big.Int).Mul(old, big.NewInt(94))) >= 0 {
+			// the 5% cut leaves floor(old*95/100)
+			if hasEvidence && now.Cmp(new(big.Int).Div(new(big.Int).Mul(old, big.NewInt(95)), big.NewInt(100))) >= 0 {
 				m.classes["frozen-slashed"] = true
 				continue
 			}
